@@ -853,7 +853,13 @@ def batch_symshape(ctx):
             want = {"refuse:zero-step": "ValueError", "refuse:explicit-bound-on-symbolic-axis": "NotImplementedError",
                     "refuse:sign-unknown": "NotImplementedError", "refuse:int-out-of-bounds": "IndexError"}.get(model[3:])
             if want is not None and not err.startswith(want):
-                agree = False
+                # the model reports the FIRST entry it refuses, the real code checks the integer entries before it
+                # normalises the slices: with two or more entries that can be refused, both orders are right
+                risky = [e for e in (par if isinstance(par, tuple) else (par,))
+                         if isinstance(e, (int, np.integer))
+                         or (isinstance(e, slice) and (e.start is not None or e.stop is not None or e.step not in (None, 1)))]
+                if not (len(risky) >= 2 and err.startswith(("ValueError", "NotImplementedError", "IndexError"))):
+                    agree = False
         # NumPy at grid valuations (admissible ones: every operand length non-negative)
         failing = None
         for sizes in (grid if shape is not None else []):
